@@ -280,7 +280,7 @@ theorem copy_exact (block : Nat) (_h : 1 ≤ block) (src : Bytes) : copyLoop (bl
     (any bytes, any size below 2 GiB, the empty file included) -/
 theorem text_utf8 (c : Bytes) (hlen : c.length < 2147483648)
     (h1 : ¬ [0xFF, 0xFE] <+: c) (h2 : ¬ [0xFE, 0xFF] <+: c) (h3 : ¬ [0xEF, 0xBB, 0xBF] <+: c) : text c = some c := by
-  unfold text
+  unfold text textN
   simp only [size_mask _ hlen]
   split
   · match c with
@@ -304,7 +304,7 @@ theorem text_utf8 (c : Bytes) (hlen : c.length < 2147483648)
 
 /-- **text_bom_utf8**: behind the UTF-8 signature EF BB BF the rest of the file is returned unchanged -/
 theorem text_bom_utf8 (t : Bytes) (hlen : t.length + 3 < 2147483648) : text (0xEF :: 0xBB :: 0xBF :: t) = some t := by
-  unfold text
+  unfold text textN
   have hl : (0xEF :: 0xBB :: 0xBF :: t : Bytes).length < 2147483648 := by simp only [List.length_cons]; omega
   simp only [size_mask _ hl]
   have h2 : 2 ≤ (0xEF :: 0xBB :: 0xBF :: t : Bytes).length := by simp only [List.length_cons]; omega
@@ -491,12 +491,14 @@ theorem text_utf16_crlf_counterexample : ¬ text_utf16_full := by
 
 /-- **text_total**: `text()` never reads outside its buffers, whatever the bytes of the file (odd lengths,
     lone surrogates, NUL units, truncated marks) -/
-theorem text_total (c : Bytes) : ∃ t, text c = some t := by
+theorem text_total (c : Bytes) : (∃ t, text c = some t) ∧ ∀ n, ∃ t, textN n c = some t := by
   have hw := wideToString_some
-  unfold text
-  dsimp only
-  repeat' split
-  all_goals first | exact hw _ | exact ⟨_, rfl⟩
+  have hn : ∀ n, ∃ t, textN n c = some t := by
+    intro n
+    unfold textN
+    repeat' split
+    all_goals first | exact hw _ | exact ⟨_, rfl⟩
+  exact ⟨hn _, hn⟩
 
 /-! ## the store: histories of writers on one path -/
 
@@ -735,5 +737,125 @@ theorem move_preserves (d : Disk) (src dst : Nat) (c : Bytes) (xdev : Bool) (h :
 theorem move_refusals (d : Disk) (p q : Nat) (xdev : Bool) :
     (∀ c, d p = some c → move d p p false = (true, d)) ∧ (d p = none → move d p q xdev = (false, d)) := by
   refine ⟨fun c h => by simp [move, h], fun h => by simp [move, h]⟩
+
+/-! ## persistent objects: the lazily opened handle and the cached stat information
+
+One `File` / `TextFile` object used for a whole history: opened, written through, asked `size()` / `exists()` /
+`isFile()` / `isDirectory()` / `lastModified()` while open (each fills the cache with whatever `stat` sees at
+that moment), closed, then read back *through the same object*. -/
+
+/-- `close()` forgets the handle and the cache and nothing else: whatever was asked before leaves no trace -/
+theorem obj_close_erases (o : Obj) :
+    o.close = { path := o.path, isText := o.isText, file := none, info := .empty } := rfl
+
+/-- **obj_after_close**: after `close()`, every object — whatever it cached, wherever its handle stood — answers
+    from the path's current bytes: `size()` is their number, `content()` all of them, `firstBytes(n)` the first
+    `n`, `lines()` and `text()` those of a fresh `TextFile` -/
+theorem obj_after_close (d : Disk) (o : Obj) (c : Bytes) (h : d o.path = some c) :
+    (o.close.size d).1 = c.length ∧ (o.close.content d).1 = c ∧ (∀ n, (o.close.firstBytes d n).1 = c.take n) ∧
+    (Spec.NulFree c → (o.close.lines d).1 = Spec.lines c) ∧
+    (c.length < 2147483648 → (o.close.text d).1 = text c) := by
+  rw [obj_close_erases]
+  have hsz : Obj.size d { path := o.path, isText := o.isText, file := none, info := .empty }
+      = ((c.length : Int), { path := o.path, isText := o.isText, file := none, info := .size c.length }) := by
+    simp [Obj.size, Obj.ensureInfo, statFetch, h]
+  have hfb : ∀ (info : Cache) (n : Nat),
+      (Obj.firstBytes d { path := o.path, isText := o.isText, file := none, info := info } n).1 = c.take n := by
+    intro info n
+    simp [Obj.firstBytes, Obj.lazyOpen, openH_read d o.path false c h, hread, smRead, fread]
+  refine ⟨by rw [hsz], ?_, fun n => hfb .empty n, ?_, ?_⟩
+  · simp only [Obj.content, hsz, Int.toNat_natCast]
+    rw [hfb]; exact List.take_length
+  · intro hz
+    have := lines_spec readLineChunk (by decide) c hz
+    unfold lines at this
+    simp [Obj.lines, Obj.lazyOpen, openH_read d o.path true c h, this]
+  · intro hlen
+    have hand : sizeAnd (c.length : Int) = c.length &&& sizeMask := by
+      unfold sizeAnd
+      have : ((c.length : Int) % 18446744073709551616).toNat = c.length := by omega
+      rw [this]
+    simp only [Obj.text, hsz]
+    simp [Obj.lazyOpen, openH_read d o.path true c h, hand, text]
+
+/-- the operations of a history on one open object: writes and stat-backed queries -/
+inductive QOp where
+  | write (bs : Bytes)
+  | qsize | qexists | qisFile | qtouch
+
+/-- the model: `File::write` / `TextFile::write` for a write, the cache-filling members for the queries -/
+def runQ (s : Disk × Obj) : QOp → Disk × Obj
+  | .write bs =>
+    if s.2.isText then let r := s.2.twrite s.1 .write bs; (r.2.1, r.2.2)
+    else let r := s.2.write s.1 bs; (r.2.1, r.2.2)
+  | .qsize => (s.1, (s.2.size s.1).2)
+  | .qexists => (s.1, (s.2.exists s.1).2)
+  | .qisFile => (s.1, (s.2.isFile s.1).2)
+  | .qtouch => (s.1, s.2.touch s.1)
+
+def writesOf : List QOp → List Bytes
+  | [] => []
+  | .write bs :: t => bs :: writesOf t
+  | _ :: t => writesOf t
+
+/-- **obj_history**: on an open object, queries interleaved with the writes change neither the disk nor the
+    handle: the bytes go where the writes alone would have put them -/
+theorem obj_history (ops : List QOp) (d : Disk) (o : Obj) (hd : Handle) (h : o.file = some hd) :
+    (ops.foldl runQ (d, o)).1 = (writeAll d hd (writesOf ops)).1 ∧
+    (ops.foldl runQ (d, o)).2.file = some (writeAll d hd (writesOf ops)).2 ∧
+    (ops.foldl runQ (d, o)).2.path = o.path ∧ (ops.foldl runQ (d, o)).2.isText = o.isText := by
+  induction ops generalizing d o hd with
+  | nil => simp [writesOf, writeAll, h]
+  | cons op t ih =>
+    simp only [List.foldl_cons]
+    cases op with
+    | write bs =>
+      have e : runQ (d, o) (.write bs) = ((fwrite d hd bs).2.1, { o with file := some (fwrite d hd bs).2.2 }) := by
+        simp only [runQ]
+        split <;> simp [Obj.twrite, Obj.write, Obj.lazyOpen, h]
+      rw [e]
+      have := ih (fwrite d hd bs).2.1 { o with file := some (fwrite d hd bs).2.2 } (fwrite d hd bs).2.2 rfl
+      simpa [writesOf, writeAll] using this
+    | qsize =>
+      have := ih d (o.size d).2 hd (by simp [Obj.size, Obj.ensureInfo]; split <;> simp [h])
+      have hp : (o.size d).2.path = o.path ∧ (o.size d).2.isText = o.isText := by
+        simp [Obj.size, Obj.ensureInfo]; split <;> simp
+      simpa [runQ, writesOf, hp.1, hp.2] using this
+    | qexists =>
+      have := ih d (o.exists d).2 hd (by simp [Obj.exists, h])
+      simpa [runQ, writesOf, Obj.exists] using this
+    | qisFile =>
+      have := ih d (o.isFile d).2 hd (by simp [Obj.isFile, Obj.ensureInfo]; split <;> simp [h])
+      have hp : (o.isFile d).2.path = o.path ∧ (o.isFile d).2.isText = o.isText := by
+        simp [Obj.isFile, Obj.ensureInfo]; split <;> simp
+      simpa [runQ, writesOf, hp.1, hp.2] using this
+    | qtouch =>
+      have := ih d (o.touch d) hd (by simp [Obj.touch, Obj.ensureInfo]; split <;> simp [h])
+      have hp : (o.touch d).path = o.path ∧ (o.touch d).isText = o.isText := by
+        simp [Obj.touch, Obj.ensureInfo]; split <;> simp
+      simpa [runQ, writesOf, hp.1, hp.2] using this
+
+/-- **obj_write_query_close** (the clause a cached `stat` could break): one object opened for WRITE, any sequence
+    of writes and stat-backed queries, `close()`; then `size()` of the same object is the number of bytes
+    written and `content()` is exactly those bytes — a query made while the file was open poisons nothing -/
+theorem obj_write_query_close (d : Disk) (p : Nat) (t : Bool) (ops : List QOp) :
+    let o1 := (Obj.new p t).open d .write
+    let r := ops.foldl runQ (o1.2.1, o1.2.2)
+    (r.2.close.size r.1).1 = (writesOf ops).flatten.length ∧ (r.2.close.content r.1).1 = (writesOf ops).flatten := by
+  intro o1 r
+  have ho : o1 = (true, d.set p (some []),
+      { path := p, isText := t, file := some { path := p, isText := t, mode := .write, sm := smWrite, all := [], rs := ⟨[], false⟩, pos := 0 }, info := .empty }) := by
+    simp [o1, Obj.open, Obj.new, openH_write]
+  have hh := obj_history ops o1.2.1 o1.2.2 _ (by rw [ho])
+  have hst := (runTx_store d p (.session t .write (writesOf ops))).1
+  simp only [runTx, openH_write, Spec.store] at hst
+  have hdisk : r.1 p = some (writesOf ops).flatten := by
+    have : r.1 = _ := hh.1
+    rw [this, ho]; exact hst
+  have hpath : r.2.close.path = p := by
+    have : r.2.path = _ := hh.2.2.1
+    simp [Obj.close, this, ho]
+  have := obj_after_close r.1 r.2 (writesOf ops).flatten (by rw [show r.2.path = p from by simpa [Obj.close] using hpath]; exact hdisk)
+  exact ⟨this.1, this.2.1⟩
 
 end C17
